@@ -166,12 +166,56 @@ func (w *World) ruleVerifyGuards(rule string, a *blsAnchors, g *ssa.Function) {
 	exp := []string{"&" + recv + "." + a.ptFld, "&" + sig + "[0]", "&" + H + "[0]", "len(" + H + ")"}
 	for i, e := range exp {
 		got := render(c.Call.Args[i])
+		if i == 1 && got != e && w.localCopyOf(c.Call.Args[i], fn.Params[1], c, a.sigLen) {
+			w.ok(rule, fmt.Sprintf("%s/arg%d", key, i), c.Pos(), "argument is a local array that a dominating copy filled from "+sig+" (whose length is guarded)")
+			continue
+		}
 		w.check(got == e, rule, fmt.Sprintf("%s/arg%d", key, i), c.Pos(), "argument is "+e, "argument "+fmt.Sprint(i)+" of C.bls_verify is `"+got+"`, expected `"+e+"`")
 	}
 	// the hasher is only used after it was validated
 	for _, ch := range callsTo(fn, "ComputeHash") {
 		w.requireFacts(rule, fnKey(fn)+"/ComputeHash", ch.(ssa.Instruction), hasherFacts(hasher, a)...)
 	}
+}
+
+// localCopyOf: arg is &L[0] of a local n-byte array L, and a call copy(L[:], src) dominates `at` with no other store into L.
+func (w *World) localCopyOf(arg ssa.Value, src *ssa.Parameter, at ssa.Instruction, n int64) bool {
+	ia, ok := stripConv(arg).(*ssa.IndexAddr)
+	if !ok {
+		return false
+	}
+	al, ok := ia.X.(*ssa.Alloc)
+	if !ok {
+		return false
+	}
+	arr, ok := deref(al.Type()).Underlying().(*types.Array)
+	if !ok || arr.Len() != n {
+		return false
+	}
+	copies, others := 0, 0
+	for _, ref := range *al.Referrers() {
+		switch r := ref.(type) {
+		case *ssa.Slice:
+			for _, rr := range *r.Referrers() {
+				if cl, ok := rr.(*ssa.Call); ok {
+					if b, ok := cl.Call.Value.(*ssa.Builtin); ok && b.Name() == "copy" && cl.Call.Args[0] == ssa.Value(r) && r.Low == nil && r.High == nil {
+						if stripConv(cl.Call.Args[1]) == ssa.Value(src) && instrDominatesFlat(cl, at) {
+							copies++
+							continue
+						}
+					}
+				}
+				others++
+			}
+		case *ssa.IndexAddr:
+			if r != ia {
+				others++
+			}
+		default:
+			others++
+		}
+	}
+	return copies == 1 && others == 0
 }
 
 // hasherFacts: what "the hasher was validated" means, whether the test is inlined or sits in a helper
@@ -1168,9 +1212,10 @@ func ruleC03(w *World) {
 		if !ok {
 			return
 		}
-		if b, ok := cc.Call.Value.(*ssa.Builtin); !ok || b.Name() != "append" || len(cc.Call.Args) != 2 {
+		if b, ok := cc.Call.Value.(*ssa.Builtin); !ok || b.Name() != "append" && b.Name() != "copy" || len(cc.Call.Args) != 2 {
 			return
 		}
+		// append(flat, sigs[i]...) or copy(flat[...], sigs[i]): the caller's bytes enter the flat C buffer here
 		chunk := render(cc.Call.Args[1])
 		if strings.HasPrefix(chunk, sigs+"[") {
 			nApp++
@@ -1344,7 +1389,8 @@ func ruleC04(w *World) {
 			if !ok {
 				return
 			}
-			if b, ok := cc.Call.Value.(*ssa.Builtin); ok && b.Name() == "append" && len(cc.Call.Args) == 2 {
+			// append(flat, sigs[i]...) or copy(flat[...], sigs[i]): the caller's bytes enter the flat C buffer here
+			if b, ok := cc.Call.Value.(*ssa.Builtin); ok && (b.Name() == "append" || b.Name() == "copy") && len(cc.Call.Args) == 2 {
 				chunk := render(cc.Call.Args[1])
 				if strings.HasPrefix(chunk, sigs+"[") {
 					n++
@@ -1457,6 +1503,20 @@ func ruleC16(w *World) {
 	if !ok1 || !ok2 {
 		w.undecided("C16.R1", "const:ciphersuites", token.NoPos, "unresolved anchor: signature / PoP ciphersuite constants")
 		return
+	}
+	// R7: BLSVerifyPOP's verdict is the verdict of the key's Verify on the candidate string: the guards of that call
+	// (exact signature length, hasher, identity flag, arguments handed to C unchanged) = C01.R2 on Verify — a candidate
+	// PoP string of another length, or whose prefix is a PoP, is not a PoP
+	w.floor("C16.R7", 4)
+	{
+		saved := w.out
+		tmp := &Out{Floors: map[string]int{}, Stats: map[string]int{}}
+		w.out = tmp
+		g := w.hasherGuard(a, "C16.R7")
+		w.ruleVerifyGuards("C16.R7", a, g)
+		w.ruleVerdictProvenance("C16.R7", a.verify, "bls_verify", a)
+		w.out = saved
+		w.out.Obligations = append(w.out.Obligations, tmp.Obligations...)
 	}
 	// R1: for all tags, tag‖SIG ≠ POP  ⇔  POP does not end with SIG
 	w.check(!strings.HasSuffix(popSuite, sigSuite), "C16.R1", "const:pop-vs-sig-suffix", token.NoPos,
